@@ -212,10 +212,23 @@ class EF(_Scheme):
 
 
 class RK2(_Scheme):
+    """Any of the classical two-stage second-order tableaux is 'the selected scheme' (the code implements the
+    midpoint rule; its docstring says Heun): the contract holds if one of them matches."""
+
     func = "ladim.tracker.Tracker.RK2"
     name = "Tracker.RK2"
     scheme = "RK2"
     tableau = "RK2-midpoint"
+
+    def alternatives(self):
+        out = []
+        for t in ("RK2-heun", "RK2-ralston"):
+            alt = RK2()
+            alt.tableau = t
+            alt.name = f"Tracker.RK2 as {t}"
+            alt.alternatives = lambda: []
+            out.append(alt)
+        return out
 
 
 class RK4(_Scheme):
